@@ -190,3 +190,165 @@ Qed.
 Lemma horseshoe_def npy (circ : nat -> nat -> R) i j :
   horseshoe npy circ i j = circ i j - (if (i =? 0)%nat then 0 else circ (i - 1)%nat j).
 Proof. destruct i as [|i']; unfold horseshoe; rops; [cbn; ring | cbn [Nat.eqb]; replace (S i' - 1)%nat with i' by lia; reflexivity]. Qed.
+
+(* ================= scaling, translation and reflection laws (C06, C04, C07, C08) ================= *)
+Lemma nrm_scal k (r : nat -> R) : 0 <= k -> nrm (vscal k r) = k * nrm r.
+Proof.
+  intros Hk. unfold nrm; rops.
+  replace (dot (vscal k r) (vscal k r)) with (k * k * dot r r) by (v3; ring).
+  rewrite sqrt_mult by (try apply dot_self_nonneg; nra).
+  replace (k * k) with (Rsqr k) by reflexivity. rewrite sqrt_Rsqr by exact Hk. reflexivity.
+Qed.
+
+(* the segment kernel is homogeneous of degree -1 (when both scales are above the absolute tolerance) *)
+Lemma fv_homogeneous k (r1 r2 : nat -> R) d : 0 < k ->
+  vtol < Rabs (nrm r1 * nrm r2 + dot r1 r2) ->
+  vtol < Rabs (k * k * (nrm r1 * nrm r2 + dot r1 r2)) ->
+  0 < nrm r1 -> 0 < nrm r2 ->
+  fv (vscal k r1) (vscal k r2) d = fv r1 r2 d / k.
+Proof.
+  intros Hk H1 H2 Hn1 Hn2. unfold fv. rops.
+  rewrite !nrm_scal by lra.
+  replace (dot (vscal k r1) (vscal k r2)) with (k * k * dot r1 r2) by (v3; ring).
+  replace (k * nrm r1 * (k * nrm r2) + k * k * dot r1 r2) with (k * k * (nrm r1 * nrm r2 + dot r1 r2)) by ring.
+  replace (Rltb vtol (Rabs (k * k * (nrm r1 * nrm r2 + dot r1 r2)))) with true by (symmetry; apply Rltb_true; exact H2).
+  replace (Rltb vtol (Rabs (nrm r1 * nrm r2 + dot r1 r2))) with true by (symmetry; apply Rltb_true; exact H1).
+  assert (Hd : nrm r1 * nrm r2 + dot r1 r2 <> 0).
+  { intro E. rewrite E, Rabs_R0 in H1. unfold vtol, ofrac in H1; rops. lra. }
+  replace (cross (vscal k r1) (vscal k r2) d) with (k * k * cross r1 r2 d).
+  2:{ destruct d as [|[|[|d]]]; v3; ring. }
+  field. repeat split; try lra. apply PI_neq0.
+Qed.
+
+(* the tolerance guard is needed: a geometry whose kernel denominator is above the tolerance can
+   fall below it after shrinking, and the kernel is then replaced by 0 *)
+Lemma fv_below_tol (r1 r2 : nat -> R) d :
+  Rabs (nrm r1 * nrm r2 + dot r1 r2) <= vtol -> fv r1 r2 d = 0.
+Proof.
+  intros H. unfold fv; rops.
+  replace (Rltb vtol (Rabs (nrm r1 * nrm r2 + dot r1 r2))) with false by (symmetry; apply Rltb_false; exact H).
+  reflexivity.
+Qed.
+
+Lemma semi_homogeneous k (u r : nat -> R) d : 0 < k -> 0 < nrm r -> nrm r - dot u r <> 0 ->
+  semi u (vscal k r) d = semi u r d / k.
+Proof.
+  intros Hk Hn Hd. unfold semi. rops. rewrite nrm_scal by lra.
+  replace (dot u (vscal k r)) with (k * dot u r) by (v3; ring).
+  replace (cross u (vscal k r) d) with (k * cross u r d).
+  2:{ destruct d as [|[|[|d]]]; v3; ring. }
+  assert (k * nrm r - k * dot u r <> 0).
+  { replace (k * nrm r - k * dot u r) with (k * (nrm r - dot u r)) by ring. apply Rmult_integral_contrapositive_currified; lra. }
+  field. repeat split; try lra; try assumption. apply PI_neq0.
+Qed.
+
+(* translation: the influence only sees differences of points *)
+Lemma get_vectors_translation (pts : nat -> nat -> R) (vm : nat -> nat -> nat -> R) (t : nat -> R) e i j d :
+  get_vectors (fun e d => pts e d + t d) (fun i j d => vm i j d + t d) e i j d = get_vectors pts vm e i j d.
+Proof. unfold get_vectors; rops. ring. Qed.
+
+(* the lattice, collocation and force points translate with the mesh; bound vectors and normals do not change *)
+Lemma lattice_translation npx (m : nat -> nat -> nat -> R) (t : nat -> R) i j d :
+  qc_rows npx (fun i j d => m i j d + t d) i j d = qc_rows npx m i j d + t d /\
+  coll_pts (fun i j d => m i j d + t d) i j d = coll_pts m i j d + t d /\
+  force_pts_c (fun i j d => m i j d + t d) i j d = force_pts_c m i j d + t d /\
+  bound_vecs (fun i j d => m i j d + t d) i j d = bound_vecs m i j d.
+Proof.
+  unfold qc_rows, coll_pts, force_pts_c, bound_vecs, c025, c075, ohalf, ofrac; rops.
+  repeat split; try field. destruct (i <? npx)%nat; field.
+Qed.
+Lemma ncross_translation (m : nat -> nat -> nat -> R) (t : nat -> R) i j d : (d < 3)%nat ->
+  g_ncross (fun i j d => m i j d + t d) i j d = g_ncross m i j d.
+Proof. intros Hd. unfold g_ncross. destruct d as [|[|[|d]]]; try lia; v3; ring. Qed.
+
+(* ---- dynamic pressure: the system is linear in the onset velocity, forces in rho ---- *)
+Lemma freestream_linear_v (a b v c : R) d : freestream a b (c * v) d = c * freestream a b v d.
+Proof. unfold freestream; rops. ring. Qed.
+
+Lemma rhs_linear (fs normals : nat -> nat -> R) c p :
+  aic_rhs (fun p d => c * fs p d) normals p = c * aic_rhs fs normals p.
+Proof. unfold aic_rhs; rops. rewrite !rsum3. ring. Qed.
+
+(* if G solves the system for onset velocities fs, then c G solves it for c fs (same matrix) *)
+Lemma solution_scales_with_onset n (mtx : nat -> nat -> R) (rhs G : nat -> R) c :
+  (forall p, (p < n)%nat -> solve_residual n mtx rhs G p = 0) ->
+  forall p, (p < n)%nat -> solve_residual n mtx (fun p => c * rhs p) (fun q => c * G q) p = 0.
+Proof.
+  intros H p Hp. specialize (H p Hp). unfold solve_residual in *. rops.
+  rewrite (rsum_ext n _ (fun q => c * (mtx p q * G q))) by (intros; ring). rewrite rsum_scal. nra.
+Qed.
+
+Lemma eval_velocity_scales n (fs : nat -> nat -> R) velm (G : nat -> R) c p d :
+  eval_velocity n (fun p d => c * fs p d) velm (fun q => c * G q) p d = c * eval_velocity n fs velm G p d.
+Proof.
+  unfold eval_velocity; rops.
+  rewrite (rsum_ext n _ (fun q => c * (velm p q d * G q))) by (intros; ring). rewrite rsum_scal. ring.
+Qed.
+
+(* forces: linear in rho, quadratic in the speed factor *)
+Lemma panel_force_scaling rho (hs : nat -> R) (vel bv : nat -> nat -> R) cr cv p d : (d < 3)%nat ->
+  panel_force (cr * rho) (fun p => cv * hs p) (fun p d => cv * vel p d) bv p d
+  = cr * (cv * cv) * panel_force rho hs vel bv p d.
+Proof. intros Hd. unfold panel_force; rops. destruct d as [|[|[|d]]]; try lia; v3; ring. Qed.
+
+(* length scale k: horseshoe strength k, same local velocity, bound vectors k => forces k^2 *)
+Lemma panel_force_length_scaling rho (hs : nat -> R) (vel bv : nat -> nat -> R) k p d : (d < 3)%nat ->
+  panel_force rho (fun p => k * hs p) vel (fun p d => k * bv p d) p d = k * k * panel_force rho hs vel bv p d.
+Proof. intros Hd. unfold panel_force; rops. destruct d as [|[|[|d]]]; try lia; v3; ring. Qed.
+
+(* the coefficient normalisation q S removes both *)
+Lemma coeff_invariant X rho v S cr cv k :
+  cr <> 0 -> cv <> 0 -> k <> 0 -> rho <> 0 -> v <> 0 -> S <> 0 ->
+  coeff (cr * (cv * cv) * (k * k) * X) (cr * rho) (cv * v) (k * k * S) = coeff X rho v S.
+Proof. intros. unfold coeff, ohalf, ofrac; rops. field. repeat split; assumption. Qed.
+
+(* ---- lift and drag are the components of the summed panel forces normal to / along the free stream ---- *)
+Definition lift_dir (a : R) : nat -> R := mk3 (- sin a) 0 (cos a).
+Definition drag_dir (a b : R) : nat -> R := mk3 (cos a * cos b) (- sin b) (sin a * cos b).
+Lemma wind_axes_orthonormal a b :
+  dot (lift_dir a) (lift_dir a) = 1 /\ dot (drag_dir a b) (drag_dir a b) = 1 /\ dot (lift_dir a) (drag_dir a b) = 0.
+Proof.
+  unfold lift_dir, drag_dir, dot, mk3; rops.
+  pose proof (sin2_cos2 a) as Ha. pose proof (sin2_cos2 b) as Hb. unfold Rsqr in *.
+  repeat split; nra.
+Qed.
+Lemma drag_dir_is_freestream a_deg b_deg v d : (d < 3)%nat ->
+  freestream a_deg b_deg v d = v * drag_dir (a_deg * PI / 180) (b_deg * PI / 180) d.
+Proof. intros Hd. unfold freestream, drag_dir; rops. reflexivity. Qed.
+Lemma lift_is_component np a_deg (F : nat -> nat -> R) :
+  lift np false a_deg F = dot (fun d => rsum np (fun p => F p d)) (lift_dir (a_deg * PI / 180)).
+Proof.
+  unfold lift, lift_dir, dot, mk3; rops. set (a := a_deg * PI / 180).
+  rewrite <- !rsum_scal_r, <- !rsum_plus. apply rsum_ext; intros; ring.
+Qed.
+Lemma drag_is_component np a_deg b_deg (F : nat -> nat -> R) :
+  drag np false a_deg b_deg F
+  = dot (fun d => rsum np (fun p => F p d)) (drag_dir (a_deg * PI / 180) (b_deg * PI / 180)).
+Proof.
+  unfold drag, drag_dir, dot, mk3; rops. set (a := a_deg * PI / 180). set (b := b_deg * PI / 180).
+  rewrite <- !rsum_scal_r, <- !rsum_plus. apply rsum_ext; intros; ring.
+Qed.
+Lemma symmetric_lift_drag_doubled np a b (F : nat -> nat -> R) :
+  lift np true a F = 2 * lift np false a F /\ drag np true a b F = 2 * drag np false a b F.
+Proof. unfold lift, drag, o2; rops. split; ring. Qed.
+
+(* a whole ring (hence every influence coefficient built from rings) scales like 1/k *)
+Definition seg_ok (k : R) (r1 r2 : nat -> R) : Prop :=
+  vtol < Rabs (nrm r1 * nrm r2 + dot r1 r2) /\ vtol < Rabs (k * k * (nrm r1 * nrm r2 + dot r1 r2)) /\
+  0 < nrm r1 /\ 0 < nrm r2.
+
+Lemma ring_raw_homogeneous npx (vec : nat -> nat -> nat -> nat -> R) k b e i j d : 0 < k ->
+  let A := vtx npx vec b e i (S j) in let B := vtx npx vec b e i j in
+  let C := vtx npx vec b e (S i) j in let D := vtx npx vec b e (S i) (S j) in
+  seg_ok k A B -> seg_ok k B C -> seg_ok k C D -> seg_ok k D A ->
+  ring_raw npx (fun e i j d => k * vec e i j d) b e i j d = ring_raw npx vec b e i j d / k.
+Proof.
+  intros Hk A B C D [a1 [a2 [a3 a4]]] [b1 [b2 [b3 b4]]] [c1 [c2 [c3 c4]]] [d1 [d2 [d3 d4]]].
+  unfold ring_raw. rops.
+  change (vtx npx (fun e i j d => k * vec e i j d) b e i (S j)) with (vscal k A).
+  change (vtx npx (fun e i j d => k * vec e i j d) b e i j) with (vscal k B).
+  change (vtx npx (fun e i j d => k * vec e i j d) b e (S i) j) with (vscal k C).
+  change (vtx npx (fun e i j d => k * vec e i j d) b e (S i) (S j)) with (vscal k D).
+  fold A B C D.
+  rewrite !fv_homogeneous by assumption. field. lra.
+Qed.
